@@ -833,6 +833,13 @@ impl<'s> Semantics<'s> {
                 offset = temp.into();
             }
 
+            // register bases and immediate offsets take the bit offset modulo the operand size
+            if detail.operands[0].type_ == x86_op_type::X86_OP_REG
+                || detail.operands[1].type_ == x86_op_type::X86_OP_IMM
+            {
+                offset = Expr::and(offset, expr_const(base.bits() as u64 - 1, base.bits()))?;
+            }
+
             let temp = self.temp(0, base.bits());
             block.assign(temp.clone(), Expr::shr(base, offset)?);
             block.assign(scalar("CF", 1), Expr::trun(1, temp.into())?);
@@ -875,6 +882,13 @@ impl<'s> Semantics<'s> {
                 let temp = self.temp(0, base.bits());
                 block.assign(temp.clone(), Expr::zext(base.bits(), offset.clone())?);
                 offset = temp.into();
+            }
+
+            // register bases and immediate offsets take the bit offset modulo the operand size
+            if detail.operands[0].type_ == x86_op_type::X86_OP_REG
+                || detail.operands[1].type_ == x86_op_type::X86_OP_IMM
+            {
+                offset = Expr::and(offset, expr_const(base.bits() as u64 - 1, base.bits()))?;
             }
 
             // this handles the assign to CF
@@ -926,6 +940,13 @@ impl<'s> Semantics<'s> {
                 offset = temp.into();
             }
 
+            // register bases and immediate offsets take the bit offset modulo the operand size
+            if detail.operands[0].type_ == x86_op_type::X86_OP_REG
+                || detail.operands[1].type_ == x86_op_type::X86_OP_IMM
+            {
+                offset = Expr::and(offset, expr_const(base.bits() as u64 - 1, base.bits()))?;
+            }
+
             // this handles the assign to CF
             let temp = self.temp(1, base.bits());
             block.assign(temp.clone(), Expr::shr(base.clone(), offset.clone())?);
@@ -975,6 +996,13 @@ impl<'s> Semantics<'s> {
                 let temp = self.temp(0, base.bits());
                 block.assign(temp.clone(), Expr::zext(base.bits(), offset.clone())?);
                 offset = temp.into();
+            }
+
+            // register bases and immediate offsets take the bit offset modulo the operand size
+            if detail.operands[0].type_ == x86_op_type::X86_OP_REG
+                || detail.operands[1].type_ == x86_op_type::X86_OP_IMM
+            {
+                offset = Expr::and(offset, expr_const(base.bits() as u64 - 1, base.bits()))?;
             }
 
             // this handles the assign to CF
